@@ -1295,4 +1295,78 @@ theorem encodeMeta_length (d : Dict) :
   have : d.length + 1 ≤ (d.length + 1) * (c + 1) := Nat.le_mul_of_pos_right _ (by omega)
   omega
 
+
+/-! ### the one-pass encoder equals the two-pass form -/
+
+theorem prefix_addKey (d : Dict) (k : Key) : d <+: addKey d k := by
+  unfold addKey; split
+  · exact List.prefix_refl _
+  · exact List.prefix_append _ _
+
+mutual
+theorem prefix_collect : ∀ (v : Value) (d : Dict), d <+: collect d v
+  | .prim _, d => by simp [collect]
+  | .arr es, d => by simp only [collect]; exact prefix_collectList es d
+  | .obj fs, d => by simp only [collect]; exact prefix_collectFields fs d
+theorem prefix_collectList : ∀ (es : List Value) (d : Dict), d <+: collectList d es
+  | [], d => by simp [collectList]
+  | e :: es, d => by
+    simp only [collectList]
+    exact (prefix_collect e d).trans (prefix_collectList es _)
+theorem prefix_collectFields : ∀ (fs : List (Key × Value)) (d : Dict), d <+: collectFields d fs
+  | [], d => by simp [collectFields]
+  | (k, v) :: fs, d => by
+    simp only [collectFields]
+    exact ((prefix_addKey d k).trans (prefix_collect v _)).trans (prefix_collectFields fs _)
+end
+
+theorem findIdx_append {k : Key} {d : Dict} (t : Dict) (h : k ∈ d) : findIdx k (d ++ t) = findIdx k d := by
+  induction d with
+  | nil => cases h
+  | cons x xs ih =>
+    simp only [List.cons_append, findIdx]
+    split
+    · rfl
+    · rename_i hne
+      have : k ∈ xs := by
+        cases h with
+        | head => exact absurd rfl hne
+        | tail _ h => exact h
+      rw [ih this]
+
+theorem findIdx_prefix {k : Key} {d dfin : Dict} (h : k ∈ d) (hp : d <+: dfin) :
+    findIdx k dfin = findIdx k d := by
+  obtain ⟨t, rfl⟩ := hp
+  exact findIdx_append t h
+
+mutual
+theorem encSt_eq : ∀ (v : Value) (d dfin : Dict), collect d v <+: dfin →
+    encSt d v = (collect d v, enc dfin v)
+  | .prim _, d, dfin, _ => by simp [encSt, collect, enc]
+  | .arr es, d, dfin, h => by
+    simp only [collect] at h
+    simp only [encSt, collect, enc, encStList_eq es d dfin h]
+  | .obj fs, d, dfin, h => by
+    simp only [collect] at h
+    simp only [encSt, collect, enc, encStFields_eq fs d dfin h]
+theorem encStList_eq : ∀ (es : List Value) (d dfin : Dict), collectList d es <+: dfin →
+    encStList d es = (collectList d es, encList dfin es)
+  | [], d, dfin, _ => by simp [encStList, collectList, encList]
+  | e :: es, d, dfin, h => by
+    simp only [collectList] at h
+    have h1 : collect d e <+: dfin := (prefix_collectList es _).trans h
+    simp only [encStList, collectList, encList, encSt_eq e d dfin h1,
+      encStList_eq es (collect d e) dfin h]
+theorem encStFields_eq : ∀ (fs : List (Key × Value)) (d dfin : Dict), collectFields d fs <+: dfin →
+    encStFields d fs = (collectFields d fs, encFields dfin fs)
+  | [], d, dfin, _ => by simp [encStFields, collectFields, encFields]
+  | (k, v) :: fs, d, dfin, h => by
+    simp only [collectFields] at h
+    have h1 : collect (addKey d k) v <+: dfin := (prefix_collectFields fs _).trans h
+    have h0 : addKey d k <+: dfin := (prefix_collect v _).trans h1
+    have hk : k ∈ addKey d k := (mem_addKey d k k).mpr (Or.inr rfl)
+    simp only [encStFields, collectFields, encFields, encSt_eq v (addKey d k) dfin h1,
+      encStFields_eq fs (collect (addKey d k) v) dfin h, findIdx_prefix hk h0]
+end
+
 end PqModel.Variant
